@@ -6,6 +6,9 @@ CHECKS = {
  "C01": dict(level="model_checking", technique="bounded-exhaustive conformance exploration: all expression ASTs <= k nodes x all documents <= n nodes, real evaluator vs reference abstract machine",
    text="Every core-fragment AST up to the size bound is evaluated by the real parser+evaluator on every JSON-model document up to the node bound and compared (ordered results, error/no error, document state afterwards) with a reference abstract machine written from the documentation; the verdict is a coverage statement over that finite product, which is exactly the programs x inputs quantifier the golden tests sample.",
    note="Trusted: the reference machine mc/internal/refsem (points the documentation leaves open are Undef, counted, not compared); fully parenthesised printing (precedence is C09); alphabets Sigma/keys {a,b}.", design="4/C01, 3, appendix A"),
+ "C03": dict(level="model_checking", technique="explicit-state BFS over derivation pipelines on the real evaluator; in every state all selections deleted by the real del vs reference deletion-by-identity on the state's value",
+   text="Breadth-first search over pipelines of derivation operators (sort, reverse, slices, map, filter, collect, +, pick, omit, with_entries, assignments of derived values, earlier deletes) replayed on the real evaluator; states are de-duplicated by the canonical node-graph dump; in every container state each of 18 selections (single paths, +/- indices, unions in both orders, duplicates, splat and recursive descent with predicates, two-digit indices) is deleted by the real del and compared with deletion by node identity, in the reference machine, of the state's value decoded afresh.",
+   note="Trusted: refsem for selection evaluation and deletion; derivation operators are only used to reach states, they are judged by C01/C15/C16.", design="4/C03"),
  "C08": dict(level="model_checking", technique="bounded-exhaustive differential exploration: every vocabulary atom in every operand position x styled documents, full node-graph dump before/after on the real evaluator",
    text="Every atom of the assignment-free vocabulary is placed alone, in every operand position of the listed unary forms and on both sides of every binary operator, wrapped as `(e) as $x | .` and `.. | select(e)`, and run by the real evaluator on every styled and commented document of the bound; the complete canonical dump of the input's node graph (all fields, pointer structure) must be identical before and after, the yielded nodes must be the original ones and the document must print as before. No reference model is involved, so there is no model/code gap.",
    note="Trusted: the graph dump covers every exported field of CandidateNode; operators that are in-place by design or read the environment are excluded as the statement excludes them.", design="4/C08"),
